@@ -521,6 +521,7 @@ package xixi_kv
 //@   requires [api]  API(db) && db.activeFile.ID < 4294967294
 //@   ensures [unlocked]  !db.mu.heldW && !db.mu.heldR
 //@   ensures [not-merging] !db.isMerging || old(db.isMerging)
+//@   ensures [a-rejected-merge-leaves-the-running-merge-its-flag] old(db.isMerging) ==> db.isMerging
 //@   ensures [live-mapping-untouched] db.index.model == old(db.index.model) && db.index.count == old(db.index.count)
 // thread-modular form of "Merge preserves the invariant" (monitor rule): whoever acquires db.mu finds the invariant
 // (assumed at Merge's own acquisitions: it is what every other function proves at its releases), and Merge proves it
